@@ -15,7 +15,8 @@ SPEC = "c16_obfuscation"
 
 NAMES = ["name", "Name", "id", "user", "body", "request", "items", "a", "data"]
 STRS = ["", "x", "Alice", "d41d8cd98f00b204e9800998ecf8427e", "a\"b\\c", "zé ✓", "<tag>&", "line\nbreak", "null", "true", "12"]
-NUMS = ["0", "-1", "7", "10", "3.14159", "1.50", "10.999", "1e5", "-2.5E-3", "123456789012", "0.1"]
+NUMS = ["0", "-1", "7", "10", "3.14159", "1.50", "10.999", "1e5", "-2.5E-3", "123456789012", "0.1", "-0", "1e400",
+        "123456789012345678901234567890"]
 
 
 def leaf(rng):
